@@ -390,6 +390,10 @@ def check_entry_points(ctx, cfg):
             want = ["serialize"] if tr == "serde::Serialize" else ["deserialize"]
             ctx.ob(rule, db.impl_key(imp), names == want, "%s for GenericArray overrides %s (judged: %s; any other override is an entry point no rule has looked at)" % (tr.split("::")[-1], names, want), at=imp["at"], cfg=cfg)
         if tr == "serde::de::Visitor" and any(x["name"] == "visit_seq" for x in imp["items"]):
+            # the visitor accepts input through visit_seq only: any other `visit_*` it overrides (visit_bytes, visit_map, visit_newtype_struct ..) is a
+            # second way of accepting input that none of the length rules has looked at (S262: visit_bytes truncating to N bytes)
+            extra = sorted(x["name"] for x in imp["items"] if x["name"].startswith("visit_") and x["name"] != "visit_seq")
+            ctx.ob(rule, db.impl_key(imp) + "#visit-methods", not extra, "the sequence visitor overrides no visit_* method besides visit_seq: %s" % ("none" if not extra else extra), at=imp["at"], cfg=cfg)
             known = imp["self"].get("k") == "adt" and imp["self"]["def"].split("::")[-1] == "GAVisitor"
             ctx.ob(rule, db.impl_key(imp), known, "sequence visitor %s: %s" % (imp["self_s"], "the one judged by C17.V" if known else "not known to the rules (its visit_seq decides which inputs are accepted)"), at=imp["at"], cfg=cfg, frozen=False)
 
